@@ -325,6 +325,9 @@ impl Hist for Derive {
         out.push(DAct::Convert);
         out.push(DAct::SubsNone);
         if big {
+            if hist.len() + 1 == self.max_len && !matches!(self.focus, Focus::Names | Focus::Crash) {
+                out.retain(|a| self.focus.judges(a));
+            }
             return;
         }
         for k in 0..self.uns.len() {
@@ -345,6 +348,10 @@ impl Hist for Derive {
         }
         for c in 0..self.carriers.len() {
             out.push(DAct::Into(c));
+        }
+        // the last step of a history of maximal length is only worth taking if it is judged
+        if hist.len() + 1 == self.max_len && !matches!(self.focus, Focus::Names | Focus::Crash) {
+            out.retain(|a| self.focus.judges(a));
         }
     }
     fn max_len(&self) -> usize {
